@@ -124,3 +124,215 @@ _m('c14-reslice-drops-downstream', 'C14', [
                                  dt_kwargs={'scale': self.prms['SLICING_PRMS']['dt_scale']},""")],
    'find_slices silently drops the groups and layers tables (but not the per-hit ids): neither '
    'a refusal nor the canonical result')
+
+# ------------------------------------------------------------------------------------------ C09
+_m('c09-gmm-no-random-state', 'C09', [
+    ('src/ampycloud/layer.py',
+     """        models[n_val] = GaussianMixture(n_val, covariance_type='spherical',
+                                        random_state=random_seed).fit(vals)
+""",
+     """        models[n_val] = GaussianMixture(n_val, covariance_type='spherical').fit(vals)
+""")],
+   'the fixed random_state is dropped: the fit draws from (and advances) the global generator')
+
+_m('c09-tmp-seed-no-finally', 'C09', [
+    ('src/ampycloud/utils/utils.py',
+     """    try:
+        yield
+    finally:
+        np.random.set_state(state)
+""",
+     """    yield
+    np.random.set_state(state)
+""")],
+   'tmp_seed restores the state only when the body returns normally')
+
+_m('c09-demo-data-seeds-globally', 'C09', [
+    ('src/ampycloud/utils/mocker.py',
+     """    with utils.tmp_seed(42):
+        # Actually generate the mock data
+        out: DataFrame = mock_layers(n_ceilos, lookback_time, hit_gap, lyrs)
+""",
+     """    np.random.seed(42)
+    # Actually generate the mock data
+    out: DataFrame = mock_layers(n_ceilos, lookback_time, hit_gap, lyrs)
+""")],
+   'canonical_demo_data seeds the global generator and leaves it seeded')
+
+_m('c09-hash-derived-seed', 'C09', [
+    ('src/ampycloud/layer.py',
+     """        models[n_val] = GaussianMixture(n_val, covariance_type='spherical',
+                                        random_state=random_seed).fit(vals)
+""",
+     """        models[n_val] = GaussianMixture(
+            n_val, covariance_type='spherical',
+            random_state=(random_seed + hash(scores)) % (2**32)).fit(vals)
+""")],
+   'a per-process value (str hash) enters the seed: identical within a process, different under '
+   'another PYTHONHASHSEED')
+
+# ------------------------------------------------------------------------------------------ C11
+_m('c11-shallow-prms-copy', 'C11', [
+    ('src/ampycloud/data.py',
+     """        full_prms = copy.deepcopy(dynamic.AMPYCLOUD_PRMS)
+""",
+     """        full_prms = copy.copy(dynamic.AMPYCLOUD_PRMS)
+""")],
+   'shallow copy of the global dictionary: nested per-call overrides and snapshot edits leak')
+
+_m('c11-no-copy-when-no-prms', 'C11', [
+    ('src/ampycloud/data.py',
+     """        # First, get a deep copy of the (current) default prms
+        full_prms = copy.deepcopy(dynamic.AMPYCLOUD_PRMS)
+""",
+     """        # Nothing to adjust: use the (current) default prms as they are
+        if prms is None:
+            return dynamic.AMPYCLOUD_PRMS
+
+        # First, get a deep copy of the (current) default prms
+        full_prms = copy.deepcopy(dynamic.AMPYCLOUD_PRMS)
+""")],
+   'without per-call parameters the chunk holds the global dictionary itself')
+
+_m('c11-no-frame-copies', 'C11', [
+    ('src/ampycloud/data.py',
+     """        self._data = self._cleanup_pdf(copy.deepcopy(data))
+""",
+     """        self._data = self._cleanup_pdf(data)
+"""),
+    ('src/ampycloud/utils/utils.py',
+     """    data = copy.deepcopy(pdf)
+""",
+     """    data = pdf
+""")],
+   'both deep copies of the caller frame removed: dtype fixes and dropped columns hit the caller')
+
+_m('c11-adjust-pops-user-dict', 'C11', [
+    ('src/ampycloud/utils/utils.py',
+     """    for key, item in new_dict.items():
+        lvls += [key]
+        if key not in ref_dict.keys():
+            warnings.warn(f'Key unknown (and thus ignored): {".".join(lvls)}', AmpycloudWarning)
+            continue
+""",
+     """    for key in list(new_dict.keys()):
+        item = new_dict[key]
+        lvls += [key]
+        if key not in ref_dict.keys():
+            warnings.warn(f'Key unknown (and thus ignored): {".".join(lvls)}', AmpycloudWarning)
+            new_dict.pop(key)
+            continue
+""")],
+   'unknown keys are removed from the caller\'s own dictionary')
+
+# ------------------------------------------------------------------------------------------ C12
+_m('c12-stray-global-read-okta0', 'C12', [
+    ('src/ampycloud/data.py',
+     """            if pdf.iloc[ind, pdf.columns.get_loc('n_hits')] <= self.prms['MAX_HITS_OKTA0']:""",
+     """            if pdf.iloc[ind, pdf.columns.get_loc('n_hits')] <= \\
+                    dynamic.AMPYCLOUD_PRMS['MAX_HITS_OKTA0']:""")],
+   'one stage reads MAX_HITS_OKTA0 from the live global instead of the snapshot')
+
+_m('c12-stray-global-read-gmm', 'C12', [
+    ('src/ampycloud/data.py',
+     """                **self.prms['LAYERING_PRMS']['gmm_kwargs'])""",
+     """                **dynamic.AMPYCLOUD_PRMS['LAYERING_PRMS']['gmm_kwargs'])""")],
+   'the layering reads gmm_kwargs from the live global instead of the snapshot')
+
+_m('c12-stray-global-read-lowess', 'C12', [
+    ('src/ampycloud/data.py',
+     """                **self.prms['LOWESS'])""",
+     """                **dynamic.AMPYCLOUD_PRMS['LOWESS'])""")],
+   'the fluffiness computation reads LOWESS from the live global instead of the snapshot')
+
+_m('c12-reset-from-cache', 'C12', [
+    ('src/ampycloud/dynamic.py',
+     """def get_default_prms() -> dict:
+    \"\"\" Extract the default ampycloud parameters from the YAML configuration file. \"\"\"
+
+    yaml = YAML(typ='safe')
+    out = yaml.load(Path(__file__).parent / 'prms' / 'ampycloud_default_prms.yml')
+
+    return out
+""",
+     """_DEFAULTS = None
+
+
+def get_default_prms() -> dict:
+    \"\"\" Extract the default ampycloud parameters from the YAML configuration file. \"\"\"
+
+    global _DEFAULTS
+    if _DEFAULTS is None:
+        yaml = YAML(typ='safe')
+        _DEFAULTS = yaml.load(Path(__file__).parent / 'prms' / 'ampycloud_default_prms.yml')
+
+    return dict(_DEFAULTS)
+""")],
+   'defaults are parsed once and handed out as a shallow copy: nested in-place edits of the '
+   'global poison every later reset')
+
+_m('c12-set-prms-shallow-update', 'C12', [
+    ('src/ampycloud/core.py',
+     """    dynamic.AMPYCLOUD_PRMS = utils.adjust_nested_dict(dynamic.AMPYCLOUD_PRMS, user_prms)
+""",
+     """    for key in user_prms:
+        if key not in dynamic.AMPYCLOUD_PRMS:
+            warnings.warn(f'Key unknown (and thus ignored): {key}', AmpycloudWarning)
+    dynamic.AMPYCLOUD_PRMS.update({key: item for key, item in user_prms.items()
+                                   if key in dynamic.AMPYCLOUD_PRMS})
+""")],
+   'set_prms replaces whole top-level entries: a partial nested YAML drops sibling leaves')
+
+_m('c12-unknown-keys-inserted', 'C12', [
+    ('src/ampycloud/utils/utils.py',
+     """            warnings.warn(f'Key unknown (and thus ignored): {".".join(lvls)}', AmpycloudWarning)
+            continue
+""",
+     """            warnings.warn(f'Key unknown (and thus ignored): {".".join(lvls)}', AmpycloudWarning)
+""")],
+   'unknown keys are warned about but inserted all the same')
+
+# ------------------------------------------------------------------------------------------ C20
+_m('c20-style-use-not-context', 'C20', [
+    ('src/ampycloud/plots/tools.py',
+     """        with plt.style.context(prms):
+
+            out = func(*args, **kwargs)
+            return out
+""",
+     """        plt.style.use(prms)
+        out = func(*args, **kwargs)
+        return out
+""")],
+   'the style is applied globally instead of inside a context manager')
+
+_m('c20-figure-not-closed', 'C20', [
+    ('src/ampycloud/plots/core.py',
+     """    if not show:
+        adp.close_fig()
+""",
+     """    if not show and save_stem is not None:
+        adp.close_fig()
+""")],
+   'the figure is only closed when it was saved')
+
+_m('c20-marker-cycle-no-modulo', 'C20', [
+    ('src/ampycloud/plots/diagnostics.py',
+     """                                     marker=MRKS[ind % len(MRKS)],
+                                     s=40, c='none', edgecolor='k', lw=1, zorder=10, alpha=0.5)""",
+     """                                     marker=MRKS[ind],
+                                     s=40, c='none', edgecolor='k', lw=1, zorder=10, alpha=0.5)""")],
+   'layer markers indexed without the modulo: more than eight layers raise IndexError')
+
+_m('c20-plot-sorts-chunk-data', 'C20', [
+    ('src/ampycloud/plots/diagnostics.py',
+     """        # Let's create an array of colors for *every* (sigh) point ...
+        symb_clrs = np.array(['#000000'] * len(self._chunk.data))
+""",
+     """        # Draw the hits from the top down, so that low hits end up on top
+        self._chunk.data.sort_values('height', ascending=False, inplace=True)
+
+        # Let's create an array of colors for *every* (sigh) point ...
+        symb_clrs = np.array(['#000000'] * len(self._chunk.data))
+""")],
+   'the raw-data plot sorts the chunk\'s data frame in place')
